@@ -1,7 +1,6 @@
 package main
 
 import (
-	"fmt"
 	"go/ast"
 	"go/token"
 	"sort"
@@ -128,10 +127,30 @@ func (c *ctx) lfsReadFacts() {
 	c.lets = nil
 	c.lean.WriteString("/-- the modification time: the entry's, or the epoch under `NoTime` -/\n")
 	c.emitShape("lfsread_notime", "lfsNextNoTime", noTime, len(noTime) > 0)
+	// the guards, reduced to what they must mention (so that an equivalent spelling of a test stays the same fact): the link
+	// target is read under a test of ModeSymlink, the content is opened under IsRegular, the xattr calls under no test
+	// of the entry at all (every entry, links included), LGet once per listed key
+	mention := func(g []string, atoms ...string) string {
+		var out []string
+		for _, s := range g {
+			hit := ""
+			for _, a := range atoms {
+				if strings.Contains(s, a) {
+					hit = a
+				}
+			}
+			if hit != "" {
+				out = append(out, hit)
+			} else {
+				out = append(out, s)
+			}
+		}
+		return strings.Join(out, "; ")
+	}
 	var calls []string
 	for _, k := range []string{"xattr.LList", "xattr.LGet", "os.Readlink", "os.Open"} {
 		if _, ok := args[k]; ok {
-			calls = append(calls, k+"("+args[k]+") under ["+strings.Join(guards[k], "; ")+"]")
+			calls = append(calls, k+"("+args[k]+") under ["+mention(guards[k], "ModeSymlink", "IsRegular()")+"]")
 		}
 	}
 	if xaStore != "" {
@@ -140,16 +159,22 @@ func (c *ctx) lfsReadFacts() {
 	c.lean.WriteString("/-- the calls that read xattrs, link target and content, with the conditions they are made under -/\n")
 	c.emitShape("lfsread_calls", "lfsNextCalls", calls, next != nil && len(calls) > 0)
 
-	// (5) startSerializer: the walk function, its root, and the callback: what it does before sending, the send, its returns
+	// (5) startSerializer: the walk function and its root; the callback's one send (what it sends, under which conditions);
+	// what the conditions around `return filepath.SkipDir` mention; that the skip comes before the send; the callback's
+	// return values.  (filepath.Walk and filepath.WalkDir visit the same entries in the same order: both sort each
+	// directory's names and follow no links; the facts do not tell them apart.)
 	ser := find("startSerializer")
 	var walkShape []string
 	if ser != nil {
 		ast.Inspect(ser.Body, func(n ast.Node) bool {
 			call, ok := n.(*ast.CallExpr)
-			if !ok || !strings.HasPrefix(exprString(call.Fun), "filepath.Walk") || len(call.Args) != 2 {
+			if !ok || len(call.Args) != 2 {
 				return true
 			}
-			walkShape = append(walkShape, exprString(call.Fun)+"("+exprString(call.Args[0])+")")
+			if fn := exprString(call.Fun); fn != "filepath.Walk" && fn != "filepath.WalkDir" {
+				return true
+			}
+			walkShape = append(walkShape, "walk:"+exprString(call.Args[0]))
 			lit, ok := call.Args[1].(*ast.FuncLit)
 			if !ok {
 				walkShape = append(walkShape, "callback:"+exprString(call.Args[1]))
@@ -161,49 +186,69 @@ func (c *ctx) lfsReadFacts() {
 					ps = append(ps, nm.Name)
 				}
 			}
-			walkShape = append(walkShape, "params:"+strings.Join(ps, ","))
-			var stmts func(list []ast.Stmt, pre string)
-			stmts = func(list []ast.Stmt, pre string) {
-				for _, st := range list {
-					switch t := st.(type) {
-					case *ast.IfStmt:
-						walkShape = append(walkShape, pre+"if "+exprString(t.Cond))
-						stmts(t.Body.List, pre+"  ")
-						if t.Else != nil {
-							walkShape = append(walkShape, pre+"else")
-							if b, ok := t.Else.(*ast.BlockStmt); ok {
-								stmts(b.List, pre+"  ")
+			var conds []string
+			var nodes []ast.Node
+			sendPos, skipPos := token.NoPos, token.NoPos
+			rets := map[string]bool{}
+			ast.Inspect(lit.Body, func(m ast.Node) bool {
+				if m == nil {
+					top := nodes[len(nodes)-1]
+					nodes = nodes[:len(nodes)-1]
+					if _, ok := top.(*ast.IfStmt); ok {
+						conds = conds[:len(conds)-1]
+					}
+					return true
+				}
+				nodes = append(nodes, m)
+				switch t := m.(type) {
+				case *ast.IfStmt:
+					conds = append(conds, exprString(t.Cond))
+				case *ast.SendStmt:
+					v := sendValue(t.Value)
+					if cl, ok := t.Value.(*ast.CompositeLit); ok && len(cl.Elts) == 3 && len(ps) == 3 {
+						first, third := exprString(cl.Elts[0]), exprString(cl.Elts[2])
+						if first == ps[0] && third == ps[2] {
+							v = typeName(cl.Type) + "{path,info,err}" // the callback's own path and error, and the entry's FileInfo
+						}
+					}
+					walkShape = append(walkShape, "send "+exprString(t.Chan)+"<-"+v+" under ["+strings.Join(conds, "; ")+"]")
+					sendPos = t.Pos()
+				case *ast.ReturnStmt:
+					for _, r := range t.Results {
+						rets[exprString(r)] = true
+						if exprString(r) == "filepath.SkipDir" {
+							skipPos = t.Pos()
+							all := strings.Join(conds, " && ")
+							var need []string
+							for _, a := range []string{"fs.dev!=0", "IsDir()", ".Dev)!=fs.dev"} {
+								if strings.Contains(all, a) {
+									need = append(need, a)
+								}
 							}
+							walkShape = append(walkShape, "skipdir-needs:"+strings.Join(need, ","))
 						}
-					case *ast.SendStmt:
-						walkShape = append(walkShape, pre+"send "+exprString(t.Chan)+"<-"+sendValue(t.Value))
-					case *ast.ReturnStmt:
-						rs := []string{}
-						for _, r := range t.Results {
-							rs = append(rs, exprString(r))
-						}
-						walkShape = append(walkShape, pre+"return "+strings.Join(rs, ","))
-					case *ast.AssignStmt:
-						// definitions used by the conditions (`st, ok := info.Sys().(*syscall.Stat_t)`)
-						if len(t.Rhs) == 1 {
-							ls := []string{}
-							for _, l := range t.Lhs {
-								ls = append(ls, exprString(l))
-							}
-							walkShape = append(walkShape, pre+strings.Join(ls, ",")+t.Tok.String()+exprString(t.Rhs[0]))
-						}
-					case *ast.BlockStmt:
-						stmts(t.List, pre)
-					default:
-						walkShape = append(walkShape, pre+fmt.Sprintf("%T", st))
 					}
 				}
+				return true
+			})
+			if skipPos != token.NoPos && sendPos != token.NoPos {
+				if skipPos < sendPos {
+					walkShape = append(walkShape, "skip-before-send")
+				} else {
+					walkShape = append(walkShape, "send-before-skip")
+				}
 			}
-			stmts(lit.Body.List, "")
+			var rs []string
+			for r := range rets {
+				rs = append(rs, r)
+			}
+			sort.Strings(rs)
+			walkShape = append(walkShape, "returns:"+strings.Join(rs, ","))
 			return false
 		})
 	}
-	c.lean.WriteString("/-- `startSerializer`: the walk and its callback, statement by statement -/\n")
+	sort.Strings(walkShape)
+	c.lean.WriteString("/-- `startSerializer`: the walk, what its callback sends and when it skips -/\n")
 	c.emitShape("lfsread_walk", "lfsWalkCallback", walkShape, ser != nil && len(walkShape) > 0)
 
 	// (6) tar.go reads `f.Size` in one place only: the payload of a regular file (the size the reader reports for a
